@@ -143,12 +143,45 @@ func (s *spyFS) Open(name string) (fs.File, error) {
 func openBound(files map[string]string) int {
 	k := 0
 	for _, t := range files {
-		if n := strings.Count(normLex(t), "$INCLUDE"); n > k {
+		n := 0
+		for _, line := range strings.Split(normLex(t), "\n") {
+			c := strings.Count(line, "$INCLUDE")
+			if g := strings.Index(line, "$GENERATE"); g >= 0 && strings.Contains(line, "INCLUDE") {
+				// an $INCLUDE made by a $GENERATE is executed once per step
+				steps := 65536
+				if f := strings.Fields(line[g:]); len(f) > 1 {
+					var a, b, st int64 = 0, 0, 1
+					rng, step, hasStep := strings.Cut(f[1], "/")
+					lo, hi, ok := strings.Cut(rng, "-")
+					var e1, e2, e3 error
+					a, e1 = strconv.ParseInt(lo, 10, 64)
+					b, e2 = strconv.ParseInt(hi, 10, 64)
+					if hasStep {
+						st, e3 = strconv.ParseInt(step, 10, 64)
+					}
+					if ok && e1 == nil && e2 == nil && e3 == nil && st > 0 && a >= 0 && b >= a && (b-a)/st < 65536 {
+						steps = int((b-a)/st) + 1
+					}
+				}
+				if c == 0 {
+					c = 1
+				}
+				c *= steps
+			}
+			n += c
+			if n > 1000000 {
+				break
+			}
+		}
+		if n > k {
 			k = n
 		}
 	}
 	total, p := 0, 1
 	for d := 1; d <= 7; d++ {
+		if k > 0 && p > 200000/k {
+			return 200000
+		}
 		p *= k
 		total += p
 		if total > 200000 {
